@@ -124,10 +124,8 @@ def math_tables(repo, res):
         if r not in mt:
             res.fail(f"C.math_table:row:{r}", f"math_table has no row for {r}", cm.rel)
     for a, b in (("float32", "float64"), ("complex64", "complex128")):
-        key = f"C.math_table:keys:{a}={b}"
-        res.ob(key)
         if a in mt and b in mt and set(mt[a]) != set(mt[b]):
-            res.fail(key, f"rows {a} and {b} differ in keys: {sorted(set(mt[a]) ^ set(mt[b]))}", cm.line(table), props=("C09",))
+            res.notes.append(f"rows {a} and {b} differ in keys {sorted(set(mt[a]) ^ set(mt[b]))} (decided per entry below)")
     for H, ucls in sorted(handlers.items()):
         if H == "math_function":
             continue
